@@ -1050,6 +1050,11 @@ func (bc *BlockChain) WriteBlockWithState(block *types.Block, receipts []*types.
 		if err := bc.writeHead(batch, block); err != nil {
 			return NonStatTy, err
 		}
+		// Delete any canonical number assignments above the new head (a reorganisation may have
+		// come from a longer chain), in the same batch that moves the head
+		for i := block.NumberU64() + 1; GetCanonicalHash(bc.db, i) != (common.Hash{}); i++ {
+			DeleteCanonicalHash(batch, i)
+		}
 	}
 	if err := batch.Write(); err != nil {
 		return NonStatTy, err
@@ -1447,15 +1452,6 @@ func (bc *BlockChain) reorg(oldBlock, newBlock *types.Block) error {
 			break
 		}
 		addedTxs = append(addedTxs, newChain[i].Transactions()...)
-	}
-	// Delete any canonical number assignments above the new head (the old chain may have been longer)
-	if len(newChain) > 0 {
-		for i := newChain[0].NumberU64() + 1; ; i++ {
-			if GetCanonicalHash(bc.db, i) == (common.Hash{}) {
-				break
-			}
-			DeleteCanonicalHash(bc.db, i)
-		}
 	}
 
 	// regardless of WriteTxLookupEntries error
